@@ -25,10 +25,11 @@ def main():
     ap.add_argument('k')
     ap.add_argument('--src')
     ap.add_argument('--no-suite', action='store_true')
+    ap.add_argument('--name')
     a = ap.parse_args()
     src = a.src or f'/tmp/wt_{a.prop}/_seeded/m{a.k}'
-    wt = f'/tmp/cf_{a.prop}_{a.k}'
-    out = os.path.join(HERE, 'seeded', f'{a.prop}-m{a.k}')
+    wt = f'/tmp/cf_{a.prop}_{a.k}' + ('_' + a.name if a.name else '')
+    out = os.path.join(HERE, 'seeded', a.name or f'{a.prop}-m{a.k}')
     sh(['git', '-C', '/repo', 'worktree', 'remove', '--force', wt])
     r = sh(['git', '-C', '/repo', 'worktree', 'add', '--detach', wt, 'HEAD'])
     if r.returncode:
@@ -49,7 +50,7 @@ def main():
         res['demo_changed_exit'] = r1.returncode
         res['demo_changed_tail'] = (r1.stdout + r1.stderr)[-600:]
         if not a.no_suite and res['patch_applies']:
-            xml = f'/tmp/cf_{a.prop}_{a.k}.xml'
+            xml = wt + '.xml'
             t0 = time.time()
             sh(f'/venv/bin/python -m pytest -q -p no:cacheprovider --timeout=900 --continue-on-collection-errors -n 6 --junitxml={xml}',
                cwd=wt, env=env, timeout=7200)
